@@ -6,6 +6,7 @@ import (
 	"fmt"
 	"net"
 	"net/http"
+	"strconv"
 
 	logging "github.com/0xReLogic/Helios/internal/logging"
 )
@@ -27,6 +28,7 @@ type limitedResponseWriter struct {
 	wroteHeader  bool
 	statusCode   int
 	ctx          context.Context
+	headOnly     bool // the request was a HEAD: a declared Content-Length announces no body
 }
 
 // Write implements io.Writer, tracking bytes written and enforcing the limit
@@ -62,14 +64,39 @@ func (lrw *limitedResponseWriter) checkLimit(b []byte) error {
 		Str("type", "response").
 		Msg("response body size limit exceeded")
 
-	// If headers haven't been written yet, set the 413 status
+	// If headers haven't been written yet, answer 413
 	if !lrw.wroteHeader {
-		lrw.statusCode = http.StatusRequestEntityTooLarge
-		lrw.ResponseWriter.WriteHeader(http.StatusRequestEntityTooLarge)
-		lrw.wroteHeader = true
+		lrw.refuse()
 	}
 
 	return fmt.Errorf("response body exceeds limit of %d bytes", lrw.limit)
+}
+
+// refuse answers 413 in place of the response, and sends it at once: the handler behind us may abort
+// the exchange when its write fails (httputil.ReverseProxy does, by panic), and the server then
+// drops a response that is still pending. The entity headers describe the refused body, not the
+// empty one that is sent.
+func (lrw *limitedResponseWriter) refuse() {
+	h := lrw.ResponseWriter.Header()
+	h.Del("Content-Encoding")
+	h.Del("Content-Type")
+	h.Set("Content-Length", "0")
+	lrw.statusCode = http.StatusRequestEntityTooLarge
+	lrw.ResponseWriter.WriteHeader(http.StatusRequestEntityTooLarge)
+	lrw.wroteHeader = true
+	if f, ok := lrw.ResponseWriter.(http.Flusher); ok {
+		f.Flush()
+	}
+}
+
+// declaresTooMuch reports whether the response announces, with the given status, a body longer than
+// the limit (HEAD, 204 and 304 responses announce a length without sending a body)
+func (lrw *limitedResponseWriter) declaresTooMuch(statusCode int) bool {
+	if lrw.headOnly || statusCode == http.StatusNoContent || statusCode == http.StatusNotModified {
+		return false
+	}
+	n, err := strconv.ParseInt(lrw.ResponseWriter.Header().Get("Content-Length"), 10, 64)
+	return err == nil && n > lrw.limit
 }
 
 // ensureHeaderWritten writes the response header if it hasn't been written yet
@@ -100,6 +127,18 @@ func (lrw *limitedResponseWriter) WriteHeader(statusCode int) {
 	}
 	// Like net/http, the first status wins; later calls are ignored
 	if lrw.statusCode != 0 {
+		return
+	}
+	// A response that announces more than the limit is refused now, while nothing has been sent:
+	// a proxy flushes the header ahead of the body, and then it is too late for a 413
+	if lrw.declaresTooMuch(statusCode) {
+		lrw.limitReached = true
+		logging.WithContext(lrw.ctx).Warn().
+			Int64("limit", lrw.limit).
+			Str("declared", lrw.ResponseWriter.Header().Get("Content-Length")).
+			Str("type", "response").
+			Msg("response body size limit exceeded")
+		lrw.refuse()
 		return
 	}
 	// Just record the status code, don't write it yet
@@ -205,6 +244,7 @@ func newSizeLimitMiddleware(name string, cfg map[string]interface{}) (Middleware
 				wroteHeader:    false,
 				statusCode:     0,
 				ctx:            r.Context(),
+				headOnly:       r.Method == http.MethodHead,
 			}
 
 			// Call next handler with the limited response writer
